@@ -27,6 +27,7 @@ type vrtHookTopics struct {
 	topics.Provider
 	onSubscribe   func(filter []byte)
 	onUnsubscribe func(filter []byte)
+	onRetained    func(filter []byte)
 }
 
 func (h *vrtHookTopics) Subscribe(topic []byte, qos byte, sub interface{}) (byte, error) {
@@ -34,6 +35,13 @@ func (h *vrtHookTopics) Subscribe(topic []byte, qos byte, sub interface{}) (byte
 		h.onSubscribe(topic)
 	}
 	return h.Provider.Subscribe(topic, qos, sub)
+}
+
+func (h *vrtHookTopics) Retained(topic []byte, msgs *[]*message.PublishMessage) error {
+	if h.onRetained != nil {
+		h.onRetained(topic)
+	}
+	return h.Provider.Retained(topic, msgs)
 }
 
 func (h *vrtHookTopics) Unsubscribe(topic []byte, sub interface{}) error {
